@@ -364,6 +364,9 @@ func buildConc(seed int64, kind string, prog [][]string) [][]concOp {
 			return &ecdsa.PrivateKey{PublicKey: ecdsa.PublicKey{Curve: curve, X: x, Y: y}, D: d}
 		}
 		sk, bk, sk2 := mk("conc-sk"), mk("conc-bk"), mk("conc-sk2")
+		// the shared signing key holds an UNREDUCED scalar (d + N, as CreateKey from raw bytes can produce): the same
+		// key, and nothing may "tidy" it in place while other goroutines use it
+		sk.D = new(big.Int).Add(sk.D, curve.Params().N)
 		concPrelude = append(concPrelude, func() {
 			ecdsa.Verify(&sk.PublicKey, []byte("digest"), big.NewInt(1), big.NewInt(1))
 			ecdsa.VerifyASN1(&sk.PublicKey, []byte("digest"), []byte{0x30, 0x03, 0x02, 0x01})
@@ -387,7 +390,11 @@ func buildConc(seed int64, kind string, prog [][]string) [][]concOp {
 					if g%2 == 1 { // odd goroutines verify under another key: calls under different keys run at the same time
 						vk = sk2
 					}
-					r0, s0, _ := stdecdsa.Sign(cryptorand.Reader, &stdecdsa.PrivateKey{PublicKey: *stdPub(&vk.PublicKey), D: vk.D}, d)
+					// (the standard library insists on a reduced scalar)
+					r0, s0, serr := stdecdsa.Sign(cryptorand.Reader, &stdecdsa.PrivateKey{PublicKey: *stdPub(&vk.PublicKey), D: new(big.Int).Mod(vk.D, curve.Params().N)}, d)
+					if serr != nil {
+						panic("harness: reference signature: " + serr.Error())
+					}
 					op.run = func() []byte { return []byte(resBool(ecdsa.Verify(&vk.PublicKey, d, r0, s0))) }
 				case "EcBlind":
 					op.run = func() []byte {
